@@ -511,6 +511,8 @@ Lemma named_operators_correct :
   op_correct_ (op_zip Tick Tick) zip_tick_spec /\
   op_correct_ (op_zip Static Static) zip_static_spec /\
   op_correct_ op_zip_longest (fun _ cur => [vzip_longest (port 0 cur) (port 1 cur)]) /\
+  op_correct_ op_demux2 (fun _ cur => [map vsnd (filter (fun v => vnum (vfst v) =? 0) (port 0 cur));
+                                       map vsnd (filter (fun v => vnum (vfst v) =? 1) (port 0 cur))]) /\
   (forall p i f, op_correct_ (op_scan p i f) (scan_spec p i f)) /\
   (forall p, op_correct_ (op_cross_singleton p) (cross_singleton_spec p)) /\
   (forall p i f, op_correct_ (op_fold_no_replay p i f) (fold_no_replay_spec p i f)) /\
@@ -519,7 +521,7 @@ Proof.
   assert (SL : forall g (sp : hspec), (forall pre cur, g cur = sp pre cur) -> op_correct_ (OStateless g) sp).
   { intros g sp H h t Ht. rewrite (stateless_correct g h t Ht). unfold tick_view, stateless_spec. apply H. }
   unfold op_map, op_filter, op_filter_map, op_flat_map, op_identity, op_union, op_tee, op_unzip,
-    op_partition, op_sort, op_sort_by_key, op_chain_first_n, op_zip_longest.
+    op_partition, op_sort, op_sort_by_key, op_chain_first_n, op_zip_longest, op_demux2.
   repeat split; intros; try (apply SL; intros; reflexivity); unfold op_correct_.
   - apply fold_correct.
   - apply reduce_correct.
